@@ -273,7 +273,7 @@ NSHARD = 16
 
 
 def plan(tier):
-    n = 120 if tier == 'quick' else 2000
+    n = 300 if tier == 'quick' else 2000
     return [{'kind': 'hyp', 'shard': i, 'examples': n} for i in range(NSHARD)]
 
 
